@@ -47,6 +47,7 @@ class C01System(BuilderSystem):
         if not self.is_core:
             ops.append(["auto_home", [], {}])
             ops.append(["auto_home", [], {"x": 0}])
+            ops.append(["auto_home", [], {"y": 0}])
             ops.append(["auto_home", [], {"y": 0, "z": 0}])
             ops.append(["probe", ["towards"], {"z": c}])
             ops.append(["probe", ["away-no-error"], {"x": b, "y": b}])
